@@ -145,11 +145,16 @@ fn owned_str_paths() {
 
 static mut DESTRUCTOR_CALLS: u32 = 0;
 static mut DESTRUCTOR_DATA: *mut c_void = core::ptr::null_mut();
+static mut STATE_FREED: u32 = 0;
 unsafe extern "C" fn destructor(data: *mut c_void) {
     DESTRUCTOR_CALLS += 1;
     DESTRUCTOR_DATA = data;
-    // the foreign side frees its closure state here
-    drop(Box::from_raw(data as *mut u32));
+    // the foreign side frees its closure state here (a NULL cookie means "no state", which is legal:
+    // `data` is an opaque cookie owned by the foreign side)
+    if !data.is_null() {
+        drop(Box::from_raw(data as *mut u32));
+        STATE_FREED += 1;
+    }
 }
 unsafe extern "C" fn run_cb(_data: *mut c_void, _: ...) -> i32 {
     0
@@ -166,7 +171,8 @@ struct RawCallback {
 #[kani::unwind(4)]
 fn callback_destructor_once() {
     let with_destructor: bool = kani::any();
-    let state = Box::into_raw(Box::new(kani::any::<u32>())) as *mut c_void;
+    let null_cookie: bool = kani::any();
+    let state = if null_cookie { core::ptr::null_mut() } else { Box::into_raw(Box::new(kani::any::<u32>())) as *mut c_void };
     let raw = RawCallback {
         data: state,
         run_callback: run_cb,
@@ -185,9 +191,13 @@ fn callback_destructor_once() {
             assert!(DESTRUCTOR_DATA == state);
         } else {
             assert!(DESTRUCTOR_CALLS == 0);
-            drop(Box::from_raw(state as *mut u32));
+            if !null_cookie {
+                drop(Box::from_raw(state as *mut u32));
+            }
         }
     }
+    kani::cover!(with_destructor && null_cookie);
+    kani::cover!(with_destructor && !null_cookie);
 }
 
 // ---- Rust-owned writer ---------------------------------------------------------------------------
